@@ -21,7 +21,7 @@ structure WF (r : SStruct ν) : Prop where
 
 /-- the local of field `f` after the items `pre` — positionally -/
 def specSlot (r : SStruct ν) (pre : List NestedMeta) (f : SField ν) : Slot ν :=
-  if f.multiple then { many := successes r f pre }
+  if f.multiple then { many := successes r f pre, occ := occurrences r f pre }
   else { seen := pre.any (selects r f), val := firstValue r f pre }
 
 structure Inv (r : SStruct ν) (pre : List NestedMeta) (st : PState ν) : Prop where
@@ -81,7 +81,9 @@ theorem specSlot_snoc_unselected (r : SStruct ν) (pre : List NestedMeta) (it : 
     cases hfd : pre.find? (selects r g) with
     | some x => simp
     | none => simp [List.find?, h]
-  rw [hs, ha, hf]
+  have ho : occurrences r g (pre ++ [it]) = occurrences r g pre := by
+    simp [occurrences, List.filter_append, List.filter, h]
+  rw [hs, ha, hf, ho]
 
 /-! ### one item -/
 
@@ -157,7 +159,10 @@ theorem step_inv (r : SStruct ν) (hwf : WF r) (pre : List NestedMeta) (st : PSt
           simp only
           cases hmul : f.multiple with
           | true =>
-              have hspec : specSlot r pre f = { many := successes r f pre } := by simp [specSlot, hmul]
+              have hspec : specSlot r pre f = { many := successes r f pre, occ := occurrences r f pre } := by
+                simp [specSlot, hmul]
+              have hocc : occurrences r f (pre ++ [.item m]) = occurrences r f pre + 1 := by
+                simp [occurrences, List.filter_append, List.filter, hselm]
               have hsucc : ∀ v, f.conv m = .ok v → successes r f (pre ++ [.item m]) = successes r f pre ++ [v] := by
                 intro v hv; unfold successes; rw [List.filterMap_append]; simp [hselm, hv]
               have hsucc' : (∀ v, f.conv m ≠ .ok v) → successes r f (pre ++ [.item m]) = successes r f pre := by
@@ -172,22 +177,18 @@ theorem step_inv (r : SStruct ν) (hwf : WF r) (pre : List NestedMeta) (st : PSt
               | ok v =>
                   refine ⟨_, rfl, ?_, ?_, ?_⟩
                   · apply others_kept r hwf pre st m f harm _ hinv.slots
-                    simp [specSlot, hmul, hsucc v hc, hslot, hspec]
+                    simp [specSlot, hmul, hsucc v hc, hocc, hslot, hspec]
                   · simp [PState.set, hbuf, hinv.flat]
                   · rw [loopMistakes_snoc]; simp [PState.set, hinv.errs, itemMistakes, harm, hmul, hc]
               | err e =>
                   refine ⟨_, rfl, ?_, ?_, ?_⟩
                   · intro g hg
                     simp only [PState.push]
-                    by_cases hgf : g = f
-                    · subst hgf
-                      rw [hinv.slots g hg]
-                      simp [specSlot, hmul, hsucc' (by intro v; simp [hc])]
-                    · rw [specSlot_snoc_unselected r pre _ g (selects_other r hwf m f g harm hg hgf)]
-                      exact hinv.slots g hg
-                  · simp [PState.push, hbuf, hinv.flat]
+                    apply others_kept r hwf pre st m f harm _ hinv.slots _ g hg
+                    simp [specSlot, hmul, hsucc' (by intro v; simp [hc]), hocc, hslot, hspec]
+                  · simp [PState.push, PState.set, hbuf, hinv.flat]
                   · rw [loopMistakes_snoc]
-                    simp [PState.push, hinv.errs, itemMistakes, harm, hmul, hc, hslot, hspec]
+                    simp [PState.push, PState.set, hinv.errs, itemMistakes, harm, hmul, hc, hslot, hspec]
           | false =>
               have hspec : specSlot r pre f = { seen := pre.any (selects r f), val := firstValue r f pre } := by
                 simp [specSlot, hmul]
@@ -258,7 +259,7 @@ theorem coreLoop_inv (r : SStruct ν) (hwf : WF r) :
 
 theorem inv_init (r : SStruct ν) : Inv r [] ({} : PState ν) := by
   refine ⟨?_, ?_, ?_⟩
-  · intro f _; simp [specSlot, successes, firstValue]
+  · intro f _; simp [specSlot, successes, occurrences, firstValue]
   · simp [buffered]
   · simp [loopMistakes]
 
